@@ -20,6 +20,7 @@ struct SCell {
     enum Kind { MATCH = 0, OPEN = 1, SHORT = 2, SCALAR = 3, VECTOR = 4 } kind = MATCH;   // 0..2 are the predefined handles
     std::vector<C> v;        // value at each calibration frequency
     int handle = -1;         // libvna parameter handle once created
+    int uparam = -1;         // >= 0: index into Scenario::uparams (unknown / correlated parameter; v holds the TRUTH)
 };
 struct Standard {
     enum Entry { SINGLE = 0, DOUBLE = 1, THROUGH = 2, LINE = 3, MAPPED = 4 } entry = SINGLE;
@@ -39,12 +40,24 @@ struct Standard {
         s += "]"; if (null_map) s += " map=NULL";
         s += abbrev_rows ? " rows=abbrev" : " rows=full"; s += abbrev_cols ? " cols=abbrev" : " cols=full";
         s += " s={";
-        for (size_t i = 0; i < cells.size(); i++) { static const char *kn[] = {"match", "open", "short", "scalar", "vector"}; if (i) s += ","; s += kn[cells[i].kind]; if (cells[i].kind >= 3 && !cells[i].v.empty()) { char b[64]; snprintf(b, sizeof b, "(%.3Lg%+.3Lgi)", cells[i].v[0].real(), cells[i].v[0].imag()); s += b; } }
+        for (size_t i = 0; i < cells.size(); i++) { static const char *kn[] = {"match", "open", "short", "scalar", "vector"}; if (i) s += ","; if (cells[i].uparam >= 0) s += "UNKNOWN#" + std::to_string(cells[i].uparam) + ":"; s += kn[cells[i].kind]; if (cells[i].kind >= 3 && !cells[i].v.empty()) { char b[64]; snprintf(b, sizeof b, "(%.3Lg%+.3Lgi)", cells[i].v[0].real(), cells[i].v[0].imag()); s += b; } }
         return s + "}";
     }
 };
 
+// unknown or correlated standard parameter (self-calibration)
+struct UParam {
+    bool correlated = false;
+    std::vector<C> truth, guess;       // per calibration frequency
+    bool guess_vector = false;         // initial guess given as a vector parameter (else scalar = guess[0])
+    int other = -1;                    // correlated: index of another UParam, or -1 => a known scalar of value other_value
+    C other_value = C(0, 0);
+    double sigma = 1e-3;               // correlated: sigma (frequency independent)
+    int handle = -1, guess_handle = -1;
+};
+
 struct Scenario {
+    std::vector<UParam> uparams;
     int type = 0, r = 1, c = 1, P = 1, F = 1;
     bool ab = false;
     std::vector<double> freq;
@@ -284,6 +297,23 @@ static inline std::vector<std::pair<int,int>> leakage_uncovered(const Scenario &
     return out;
 }
 
+// identifiability including unknown standard parameters: each parameter perturbs every S cell it appears in
+static inline vm::Ident ident_with_unknowns(const Scenario &sc, int f) {
+    std::vector<Mat> S; for (auto &st : sc.stds) S.push_back(st.Sfull[f]);
+    std::vector<std::vector<vm::SRef>> extra(sc.uparams.size());
+    for (size_t s = 0; s < sc.stds.size(); s++) {
+        const Standard &st = sc.stds[s];
+        auto put = [&](const SCell &cell, int i, int j) { if (cell.uparam >= 0) extra[cell.uparam].push_back(vm::SRef{(int)s, i, j}); };
+        switch (st.entry) {
+        case Standard::SINGLE: put(st.cells[0], st.ports[0], st.ports[0]); break;
+        case Standard::DOUBLE: put(st.cells[0], st.ports[0], st.ports[0]); put(st.cells[1], st.ports[1], st.ports[1]); break;
+        case Standard::THROUGH: break;
+        default: for (int i = 0; i < st.k; i++) for (int j = 0; j < st.k; j++) put(st.cells[i * st.k + j], st.ports[i], st.ports[j]); break;
+        }
+    }
+    return vm::identifiability(sc.box[f], S, usable_cells(sc), 1e5L, &extra);
+}
+
 static inline vm::Ident ident_at(const Scenario &sc, int f) {
     std::vector<Mat> S; for (auto &st : sc.stds) S.push_back(st.Sfull[f]);
     return vm::identifiability(sc.box[f], S, usable_cells(sc));
@@ -318,7 +348,29 @@ struct Runner {
         int rc = vnacal_new_set_frequency_vector(vnp, sc.freq.data());
         PBT_CHECK(c, rc == 0, "cal.set_frequency_vector", "failed: %s", log.text().c_str());
     }
+    int uparam_handle(int k) {
+        UParam &u = sc.uparams[k];
+        if (u.handle >= 0) return u.handle;
+        if (u.correlated) {
+            int oh;
+            if (u.other >= 0) oh = uparam_handle(u.other);
+            else { oh = vnacal_make_scalar_parameter(vcp, mkc((double)u.other_value.real(), (double)u.other_value.imag())); if (oh >= 3) to_delete.push_back(oh); }
+            PBT_CHECK(c, oh >= 0, "cal.make_parameter", "make 'other' parameter failed: %s", log.text().c_str());
+            double sg = u.sigma;
+            u.handle = vnacal_make_correlated_parameter(vcp, oh, nullptr, 1, &sg);
+        } else {
+            if (u.guess_vector) { std::vector<dcx> g; for (auto &x : u.guess) g.push_back(mkc((double)x.real(), (double)x.imag())); u.guess_handle = vnacal_make_vector_parameter(vcp, sc.freq.data(), sc.F, g.data()); }
+            else u.guess_handle = vnacal_make_scalar_parameter(vcp, mkc((double)u.guess[0].real(), (double)u.guess[0].imag()));
+            PBT_CHECK(c, u.guess_handle >= 0, "cal.make_parameter", "make guess parameter failed: %s", log.text().c_str());
+            if (u.guess_handle >= 3) to_delete.push_back(u.guess_handle);
+            u.handle = vnacal_make_unknown_parameter(vcp, u.guess_handle);
+        }
+        PBT_CHECK(c, u.handle >= 3, "cal.make_parameter", "make unknown/correlated parameter failed: %s", log.text().c_str());
+        to_delete.push_back(u.handle);
+        return u.handle;
+    }
     int handle_of(SCell &s) {
+        if (s.uparam >= 0) return uparam_handle(s.uparam);
         if (s.kind <= SCell::SHORT) return (int)s.kind;
         if (s.handle >= 0) return s.handle;
         if (s.kind == SCell::SCALAR) s.handle = vnacal_make_scalar_parameter(vcp, mkc((double)s.v[0].real(), (double)s.v[0].imag()));
